@@ -322,7 +322,7 @@ def replay(path):
         print("  concrete run raised: %r" % (rc.error,))
     for l, info in rc.failed:
         print("  FAILED obligation: %s %s" % (l, info if info is not None else ""))
-    if rec["label"] in failed or rc.error is not None:
+    if rec["label"] in failed or (rc.error is not None and core._raised_in_repo(rc.error)):
         print("VIOLATION property=%s replay=%s" % (rec["property"], path))
         return 1
     print("  obligation %r holds on the current tree for these inputs" % rec["label"])
